@@ -3,6 +3,7 @@ package main
 // C16 — produce requests respect the configured size and count limits, and flush on time.
 
 import (
+	"go/constant"
 	"fmt"
 	"go/token"
 
@@ -80,9 +81,51 @@ func c16Limits(c *Ctx) {
 		{"partition-bytes", Cmp{token.GEQ, BinOpOf(token.ADD, FieldLoad("partitionSet.bufferBytes"), size), FieldLoad("Config.Producer.MaxMessageBytes")}},
 		{"max-messages", Cmp{token.GEQ, FieldLoad("produceSet.bufferCount"), FieldLoad("Config.Producer.Flush.MaxMessages")}},
 	}
-	for _, pr := range preds {
+	// a limit test can also be the value returned (`return max > 0 && count >= max`): the comparison then flows,
+	// through the φ of the short-circuit evaluation, into the result without ever being branched on
+	returned := func(pr Pred) *ssa.BinOp {
+		var found *ssa.BinOp
+		Info(fn).Each(func(it Item) {
+			bo, ok := it.In.(*ssa.BinOp)
+			if !ok || !pr.holds(bo, false) {
+				return
+			}
+			for _, r := range *bo.Referrers() {
+				switch x := r.(type) {
+				case *ssa.Return:
+					found = bo
+				case *ssa.Phi:
+					// the other edges of the φ are the constant false (the short-circuited operands)
+					okPhi := true
+					for _, e := range x.Edges {
+						if e == ssa.Value(bo) {
+							continue
+						}
+						if cst, isC := e.(*ssa.Const); !isC || cst.Value == nil || cst.Value.Kind() != constant.Bool || constant.BoolVal(cst.Value) {
+							okPhi = false
+						}
+					}
+					for _, r2 := range *x.Referrers() {
+						if _, isRet := r2.(*ssa.Return); isRet && okPhi {
+							found = bo
+						}
+					}
+				}
+			}
+		})
+		return found
+	}
+	for i, pr := range preds {
 		es := reg.EstablishingEdges(pr.p)
 		if len(es) == 0 {
+			if bo := returned(pr.p); bo != nil {
+				c.Check(true, rule, fn, "limit:"+pr.name, bo, "the "+pr.name+" test is the value returned", "", nil)
+				if i == 2 {
+					g, path := reg.Guarded(Item{In: bo}, Cmp{token.GTR, FieldLoad("Config.Producer.Flush.MaxMessages"), ConstInt(0)})
+					c.Check(g, rule, fn, "max-messages-only-when-set", bo, "the count limit applies only when MaxMessages > 0", "bufferCount >= MaxMessages is applied with MaxMessages == 0: nothing can ever be buffered", path)
+				}
+				continue
+			}
 			c.Fail(rule, fn, "limit:"+pr.name, nil, "the limit test "+pr.name+" is missing from wouldOverflow", nil)
 			continue
 		}
